@@ -166,6 +166,13 @@ func Explore(sc *Scenario, opts Options) (Stats, []Violation) {
 			if len(st.Outcomes) < 100000 {
 				st.Outcomes[fmt.Sprint(o.Deadlock, o.Panic != "", o.Log)]++
 			}
+			if opts.AfterRun != nil {
+				for _, msg := range opts.AfterRun(o) {
+					if len(viol) < 20 {
+						viol = append(viol, Violation{Msg: msg, Choices: choicesOf(o.Points, len(o.Points)), Outcome: o})
+					}
+				}
+			}
 			if sc.Check != nil {
 				for _, msg := range sc.Check(o) {
 					if len(viol) < 20 {
